@@ -21,6 +21,6 @@ run_one() { i=$1; T=$2
   first=$(echo "$out" | grep -A1 '^VIOLATION' | sed -n 2p | cut -c1-260)
   echo "C$i rc=$rc violations=$v | $first $e"; }
 export -f run_one
-seq -w 1 20 | xargs -P 12 -I{} bash -c "run_one {} $TARGET" | sort
+(if [ -n "${PROPS:-}" ]; then echo $PROPS | tr " " "\n"; else seq -w 1 20; fi) | xargs -P 12 -I{} bash -c "run_one {} $TARGET" | sort
 if [ "$MODE" = "--in-repo" ]; then git -C /repo checkout -- . ; else rm -rf "$TARGET"; fi
 rm -rf /tmp/seedev.*
